@@ -48,6 +48,7 @@ def strategy(tier):
         # logs still have one entry per step, and cost_per_time is charged once per step at every level
         spec["unit_time"] = draw(st.sampled_from([1, 1, 1, 2, 3]))
         spec["via_json"] = draw(st.integers(0, 3)) == 0
+        spec["backward_run"] = draw(st.integers(0, 4)) == 0
         return spec
 
     return case()
@@ -71,6 +72,13 @@ def check(spec):
     p = h.project
     u = int(spec.get("unit_time", 1))
     extra = {"unit_time": u} if u != 1 else {}
+    if spec.get("backward_run") and u == 1 and spec.get("pause") is None and not any(c.get("parent") is not None for c in spec["comps"]):
+        # the accounting of a backward-simulated (log-reversed) result; which steps were absence steps is left to the
+        # library's own mirrored list, so only the state-based clauses are evaluated
+        S.backward_simulate(p, spec["opts"])
+        res.cls("backward_run")
+        check_costs(spec, h, res, absn=set(), where=" after backward_simulate")
+        return res
     if spec.get("pause") is not None:
         S.simulate(p, dict(spec["opts"], max_time=spec["pause"]), **extra)
         S.simulate(p, spec["opts"], initialize_state_info=False, initialize_log_info=False, **extra)
